@@ -16,14 +16,17 @@ Open Scope Z_scope.
 Inductive act :=
 | AAdd (c : nat) (t : task) (w : Z) | AFlush (c : nat) | AWait (c : nat)
 | ARel (m : Z)            (* release the parked callback whose smallest task is m; -1: none parked *)
-| ATick | AClock (d : Z).
+| ATick | AClock (d : Z)
+| AQuitGo.                (* let the flusher parked before shallQuit go on *)
 
 Record obs := mkObs
   { oidle : list bool; oparked : list batch; ocont : batch; oinfl : Z;
-    oguard : bool; ocmd : bool; otick : bool; obenter : bool }.
+    oguard : bool; ocmd : bool; otick : bool; obenter : bool;
+    obflush : bool;   (* a flusher is blocked in the enterExecution of a Flush (tick or deferred) *)
+    oqpark : bool     (* a flusher is parked before shallQuit *) }.
 
 Record case := mkCase
-  { cmaxw : Z; cinterval : Z; cbad : list task; cpatched : bool; cdrained : bool; cn : nat;
+  { cmaxw : Z; cinterval : Z; cbad : list task; cpatched : bool; cdrained : bool; cgateq : bool; cn : nat;
     csteps : list (act * obs) }.
 
 Definition cfg_of (c : case) : config := mkCfg (cmaxw c) (cinterval c) (cbad c) (cpatched c).
@@ -74,7 +77,9 @@ Definition gated_b (p : bpc) : option batch :=
 Definition bmin (h : batch) : Z :=
   match h with [] => -1 | t :: h' => fold_left Z.min h' t end.
 
-Definition internal_succs (cfg : config) (s : state) : list state :=
+Definition is_quit (p : bpc) : bool := match p with BQuit _ => true | _ => false end.
+
+Definition internal_succs (cfg : config) (gq : bool) (s : state) : list state :=
   flat_map (fun c =>
     match nth_error (cl s) c with
     | Some p => match gated_c p with
@@ -88,6 +93,7 @@ Definition internal_succs (cfg : config) (s : state) : list state :=
     | Some p => match gated_b p with
                 | Some _ => []
                 | None =>
+                  if gq && is_quit p then [] else
                   match bstep cfg s b false with Some s' => [s'] | None => [] end ++
                   match p with
                   | BSelect _ _ => match bstep cfg s b true with Some s' => [s'] | None => [] end
@@ -98,7 +104,7 @@ Definition internal_succs (cfg : config) (s : state) : list state :=
     end) (seq 0 (length (fl s))).
 
 (* all quiescent states reachable by internal actions; None = out of fuel *)
-Fixpoint explore (cfg : config) (fuel : nat) (todo : list state) (seen : list (list Z))
+Fixpoint explore (cfg : config) (gq : bool) (fuel : nat) (todo : list state) (seen : list (list Z))
          (stable : list state) : option (list state) :=
   match fuel with
   | O => match todo with [] => Some stable | _ => None end
@@ -107,10 +113,10 @@ Fixpoint explore (cfg : config) (fuel : nat) (todo : list state) (seen : list (l
     | [] => Some stable
     | s :: rest =>
       let k := ser s in
-      if mem_ser k seen then explore cfg f rest seen stable
-      else match internal_succs cfg s with
-           | [] => explore cfg f rest (k :: seen) (s :: stable)
-           | succ => explore cfg f (succ ++ rest) (k :: seen) stable
+      if mem_ser k seen then explore cfg gq f rest seen stable
+      else match internal_succs cfg gq s with
+           | [] => explore cfg gq f rest (k :: seen) (s :: stable)
+           | succ => explore cfg gq f (succ ++ rest) (k :: seen) stable
            end
     end
   end.
@@ -137,6 +143,12 @@ Definition apply_act (cfg : config) (s : state) (a : act) : state :=
   | ARel m => release cfg s m
   | ATick => exec cfg s EvTick
   | AClock d => exec cfg s (EvClock d)
+  | AQuitGo =>
+    match filter (fun b => match nth_error (fl s) b with Some p => is_quit p | None => false end)
+                 (seq 0 (length (fl s))) with
+    | b :: _ => exec cfg s (EvB b false)
+    | [] => s
+    end
   end.
 
 (* ---------- projection ---------- *)
@@ -156,15 +168,20 @@ Definition parked_of (s : state) : list batch :=
 Definition is_idle (p : cpc) : bool := match p with CIdle => true | _ => false end.
 Definition is_got (p : bpc) : bool := match p with BGot _ _ => true | _ => false end.
 
-Definition project (s : state) : obs :=
+Definition is_bflush (p : bpc) : bool :=
+  match p with BTick FEnter _ | BExit FEnter => true | _ => false end.
+
+Definition project (gq : bool) (s : state) : obs :=
   mkObs (map is_idle (cl s)) (parked_of s) (cont s) (inflight s) (guarded s)
         (match cmd s with Some _ => true | None => false end)
-        (tick s && existsb ticker_live (fl s)) (existsb is_got (fl s)).
+        (tick s && existsb ticker_live (fl s)) (existsb is_got (fl s))
+        (existsb is_bflush (fl s)) (gq && existsb is_quit (fl s)).
 
 Definition obs_eqb (a b : obs) : bool :=
   list_eqb Bool.eqb (oidle a) (oidle b) && list_eqb zs_eqb (oparked a) (oparked b) &&
   zs_eqb (ocont a) (ocont b) && (oinfl a =? oinfl b) && Bool.eqb (oguard a) (oguard b) &&
-  Bool.eqb (ocmd a) (ocmd b) && Bool.eqb (otick a) (otick b) && Bool.eqb (obenter a) (obenter b).
+  Bool.eqb (ocmd a) (ocmd b) && Bool.eqb (otick a) (otick b) && Bool.eqb (obenter a) (obenter b) &&
+  Bool.eqb (obflush a) (obflush b) && Bool.eqb (oqpark a) (oqpark b).
 
 Definition FUEL : nat := 4000.
 
@@ -175,43 +192,43 @@ Fixpoint dedup (l : list state) (seen : list (list Z)) : list state :=
   end.
 
 (* one controller step on a set of candidate states *)
-Definition macro (cfg : config) (S : list state) (a : act) (o : obs) : option (list state) :=
-  match explore cfg FUEL (map (fun s => apply_act cfg s a) S) [] [] with
+Definition macro (cfg : config) (gq : bool) (S : list state) (a : act) (o : obs) : option (list state) :=
+  match explore cfg gq FUEL (map (fun s => apply_act cfg s a) S) [] [] with
   | None => None
-  | Some st => Some (dedup (filter (fun s => obs_eqb (project s) o) st) [])
+  | Some st => Some (dedup (filter (fun s => obs_eqb (project gq s) o) st) [])
   end.
 
-Fixpoint follow (cfg : config) (S : list state) (steps : list (act * obs)) : bool :=
+Fixpoint follow (cfg : config) (gq : bool) (S : list state) (steps : list (act * obs)) : bool :=
   match steps with
   | [] => true
   | (a, o) :: rest =>
-    match macro cfg S a o with
-    | Some (s :: S') => follow cfg (s :: S') rest
+    match macro cfg gq S a o with
+    | Some (s :: S') => follow cfg gq (s :: S') rest
     | _ => false
     end
   end.
 
 (* the observed log is a trace of the model *)
-Definition agrees (c : case) : bool := follow (cfg_of c) [init (cn c)] (csteps c).
+Definition agrees (c : case) : bool := follow (cfg_of c) (cgateq c) [init (cn c)] (csteps c).
 
 (* what the model allows after the longest prefix it can follow (diagnostics) *)
-Fixpoint follow_diag (cfg : config) (S : list state) (steps : list (act * obs)) (i : Z)
+Fixpoint follow_diag (cfg : config) (gq : bool) (S : list state) (steps : list (act * obs)) (i : Z)
   : Z * list obs :=
   match steps with
   | [] => (-1, [])
   | (a, o) :: rest =>
-    match macro cfg S a o with
-    | Some (s :: S') => follow_diag cfg (s :: S') rest (i + 1)
-    | _ => (i, match explore cfg FUEL (map (fun s => apply_act cfg s a) S) [] [] with
-               | Some st => map project st | None => [] end)
+    match macro cfg gq S a o with
+    | Some (s :: S') => follow_diag cfg gq (s :: S') rest (i + 1)
+    | _ => (i, match explore cfg gq FUEL (map (fun s => apply_act cfg s a) S) [] [] with
+               | Some st => map (project gq) st | None => [] end)
     end
   end.
-Definition model_obs (c : case) : Z * list obs := follow_diag (cfg_of c) [init (cn c)] (csteps c) 0.
+Definition model_obs (c : case) : Z * list obs := follow_diag (cfg_of c) (cgateq c) [init (cn c)] (csteps c) 0.
 
 (* ---------- the property on the observed log (independent of the model) ---------- *)
 Definition nth_idle (o : obs) (c : nat) : bool := nth c (oidle o) false.
 
-Definition obs0 (n : nat) : obs := mkObs (repeat true n) [] [] 0 false false false false.
+Definition obs0 (n : nat) : obs := mkObs (repeat true n) [] [] 0 false false false false false false.
 
 Definition zmem (x : Z) (l : list Z) : bool := existsb (Z.eqb x) l.
 Fixpoint nodup_z (l : list Z) : bool :=
@@ -259,7 +276,9 @@ Definition an_step (a : an) (st : act * obs) : an :=
      in progress, everything accepted is visible *)
   let visible := completed ++ concat (oparked o) ++ ocont o in
   let cons_ok := nodup_z visible && subset_z visible started &&
-                 (match pending' with [] => perm_z visible started | _ => true end) in
+                 (match pending' with [] => perm_z visible started | _ => true end) &&
+                 (* pending tasks have an owner: a live flusher loop, or a flusher about to flush *)
+                 (match ocont o with [] => true | _ => oguard o || obflush o end) in
   mkAn o started returned pending' completed waits' (a_ok a && wait_ok && cons_ok).
 
 Definition analyse (c : case) : an :=
